@@ -15,7 +15,7 @@
     inherited one (unless rotation evicted its block). *)
 From Coq Require Import List NArith ZArith Bool Arith Lia.
 From BBS Require Import Common.Sx Common.SxFactsMA Persist.PBL Persist.PBLProofs Persist.Syncer Persist.SyncerProofs
-  Persist.Shutdown Persist.ShutdownProofs Persist.ShutdownOrder Run.R03 Run.R03MonGhost Run.R03MonFields
+  Persist.Shutdown Persist.ShutdownArith Persist.ShutdownProofs Persist.ShutdownOrder Run.R03 Run.R03MonGhost Run.R03MonFields
   Run.R03MonReplay Run.R03Mon Run.R03MonObs.
 Import ListNotations.
 Local Open Scope nat_scope.
@@ -268,6 +268,57 @@ Proof.
     eapply crash_covers_G; eauto.
 Qed.
 
+(** ---- at every reachable state, every acknowledgement the ghost carries (inherited ones included)
+    is evicted or its index record resolves ---- *)
+Lemma u32_idem a : u32 (u32 a) = u32 a.
+Proof. unfold u32. apply N.mod_mod. discriminate. Qed.
+
+Lemma live_record_resolves o p g a : ginv o p g -> ack_live p g a -> ack_static o a ->
+  (N.of_nat (a_ep a - g_pe g) < 2 ^ 32)%N -> (Z.of_nat (a_last a - a_abs a) < 2 ^ 16)%Z ->
+  ref_to_index (fst (a_ref a)) (snd (a_ref a)) p = Ok (Some (a_abs a - totalReleased p, a_seed a)).
+Proof.
+  intros Gi [Hge Hep Hs Hl Hle _] Hst H32 H16. unfold pos in *.
+  unfold ack_static in Hst. rewrite Hst. cbn [fst snd]. unfold ref_to_index.
+  rewrite (gi_old _ _ _ Gi), <- (u32_idem (o + N.of_nat (g_pe g))), u32_diff by assumption.
+  rewrite Nat2N.id, Hl, Hs.
+  assert (nth_error (epochSeeds p) (a_ep a - g_pe g) <> None) as Hn by congruence.
+  apply nth_error_Some in Hn.
+  destruct (N.leb_spec (N.of_nat (length (epochSeeds p))) (N.of_nat (a_ep a - g_pe g))); [lia|].
+  rewrite u16_small by lia.
+  destruct (Z.ltb_spec (Z.of_nat (a_last a) - Z.of_nat (totalReleased p))
+                       (Z.of_N (Z.to_N (Z.of_nat (a_last a) - Z.of_nat (a_abs a))))); [lia|].
+  repeat f_equal. lia.
+Qed.
+
+Definition acks_resolve (s : sys) (gx : gsys) : Prop :=
+  forall a, In a (g_acks (gs_g gx)) ->
+    (N.of_nat (a_ep a - g_pe (gs_g gx)) < 2 ^ 32)%N -> (Z.of_nat (a_last a - a_abs a) < 2 ^ 16)%Z ->
+    a_abs a < totalReleased (s_pbl s) \/
+    (ref_to_index (fst (a_ref a)) (snd (a_ref a)) (s_pbl s)
+       = Ok (Some (a_abs a - totalReleased (s_pbl s), a_seed a)) /\
+     exists b, nth_error (blocks (s_pbl s)) (a_abs a - totalReleased (s_pbl s)) = Some b /\
+               (a_end a <= b_written b)%Z).
+
+Lemma G_acks_resolve o s gx : G o s gx -> acks_resolve s gx.
+Proof.
+  intros [[[[_ [Gi _]] _] _] _] a Hin H32 H16.
+  pose proof (gi_acks _ _ _ Gi) as F. rewrite Forall_forall in F.
+  pose proof (gi_static _ _ _ Gi) as S. rewrite Forall_forall in S.
+  destruct (F a Hin) as [E|L]; [left; exact E|right]. split.
+  - eapply live_record_resolves; eauto.
+  - destruct L. assumption.
+Qed.
+
+Lemma replay_entries_app cfg bs : forall es1 es2 n x x2, replay_entries cfg bs n x (es1 ++ es2) = (x2, []) ->
+  exists x1, replay_entries cfg bs n x es1 = (x1, []) /\ replay_entries cfg bs (n + length es1) x1 es2 = (x2, []).
+Proof.
+  induction es1 as [|e es1 IH]; intros es2 n x x2 H; cbn [app replay_entries length] in *.
+  - exists x. rewrite Nat.add_0_r. auto.
+  - destruct (replay_entry cfg bs x e) as [x'|]; [|discriminate].
+    destruct (IH _ _ _ _ H) as [x1 [H1 H2]]. exists x1. split; [exact H1|].
+    replace (n + S (length es1)) with (S n + length es1) by lia. exact H2.
+Qed.
+
 (** ---- all incarnations ---- *)
 Definition next_acks (prev : Z) (gx : gsys) : list ack :=
   if Z.eqb prev 0 then [] else
@@ -284,6 +335,13 @@ Fixpoint chain_sound (cfgsx objs c : sx) (cfg : config) (bs : Z) (incs hists : l
                the ghost started on the inherited acknowledgements A *)
             (exists tr, grun cfg (init_sys (restart_of st0) now) (g_inh A) tr = Some (Ok (x_sys x1, gx))) /\
             (exists pre, g_acks (gs_g gx) = pre ++ A) /\
+            (* at EVERY point of the incarnation's history: every acknowledgement made so far or inherited
+               is evicted (its block was rotated out) or its index record resolves on the current list *)
+            (forall es1 es2, es = es1 ++ es2 ->
+               exists x0 x' gx', replay_restore c cfg bs st0 now e0 = Some x0 /\
+                 replay_entries cfg bs 1 x0 es1 = (x', []) /\
+                 (exists tr, grun cfg (init_sys (restart_of st0) now) (g_inh A) tr = Some (Ok (x_sys x', gx'))) /\
+                 (exists pre, g_acks (gs_g gx') = pre ++ A) /\ acks_resolve (x_sys x') gx') /\
             let m1 := fold_left (mon_entry cfgsx objs (sx_list (sx_nth inc 1))) (e0 :: es) m in
             (m_prev (mon_exit m1) <> 0%Z ->
                exists w rest, gs_writes gx = w :: rest /\ x_state x1 = gw_state w /\
@@ -313,7 +371,13 @@ Proof.
   rewrite <- Hx0 in Hg.
   destruct (incarnation_from (fst st0) cfg bs cfgsx objs (sx_list (sx_nth ic 1)) st0 m e0 es x0 x1 A
               Hg Hst T0 Hf R1) as [gx [Hg1 [Hrun [Hgrow Hob]]]].
-  exists x1, gx. rewrite <- Hx0. split; [exact Hrun|]. split; [exact Hgrow|]. cbv zeta. split; [exact Hob|].
+  exists x1, gx. rewrite <- Hx0. split; [exact Hrun|]. split; [exact Hgrow|]. split.
+  { intros es1 es2 Hsplit. rewrite Hsplit in R1. destruct (replay_entries_app _ _ _ _ _ _ _ R1) as [x' [R1a _]].
+    destruct (incarnation_from (fst st0) cfg bs cfgsx objs (sx_list (sx_nth ic 1)) st0 m e0 es1 x0 x' A
+                Hg Hst T0 Hf R1a) as [gx' [Hg' [Hrun' [Hgrow' _]]]].
+    exists x0, x', gx'. split; [exact R0|]. split; [exact R1a|]. split; [exact Hrun'|]. split; [exact Hgrow'|].
+    eapply G_acks_resolve; eauto. }
+  cbv zeta. split; [exact Hob|].
   set (m1 := fold_left _ (e0 :: es) m) in *.
   apply (IH incs (mon_exit m1) (S inc)); [apply mon_exit_fresh| |exact Ha2|exact R2].
   unfold next_acks. destruct (Z.eqb_spec (m_prev (mon_exit m1)) 0) as [E|N]; [apply G_fresh|].
